@@ -77,7 +77,7 @@ TLC_JAR = "/opt/veriftools/tla/tla2tools.jar"
 def _tlc_cmd(module, cfg, workers, extra=()):
     return ["tlc", "-workers", str(workers), "-noGenerateSpecTE", "-cleanup", "-config", cfg] + list(extra) + [module]
 
-def run_tlc(module, cfg_text, name, workers=8, timeout=1800, env_extra=None, java_opts=None, extra=()):
+def run_tlc(module, cfg_text, name, workers=8, timeout=600, env_extra=None, java_opts=None, extra=()):
     """Run TLC on spec/<module>.tla with the given cfg text.  Returns a dict with
     generated/distinct state counts, the violated invariant (if any) and the output path."""
     wd = workdir("tlc-" + name)
